@@ -178,7 +178,9 @@ def _iter_rows_with_delimiter(filepath, delimiter, has_header):
                     continue
                 match = pattern.match(line)
                 if match:
-                    yield list(match.groups())
+                    # A group that did not take part in the match (an optional column that is
+                    # blank in this row) is an empty cell, not None
+                    yield [g if g is not None else '' for g in match.groups()]
         elif delimiter and len(delimiter) == 1:
             reader = csv.reader(f, delimiter=delimiter)
             if has_header:
